@@ -535,6 +535,11 @@ func c15OtherBaseTypes(c *lib.Ctx, entries []fit.VerifField) {
 						manu = 0xFFFF
 					}
 					prod := uint16(probeNo / 513 * 37)
+					if d := c04Dict(); probeNo%3 == 0 && len(d) > 0 {
+						// every third probe: a (manufacturer, product) pair from the integer values
+						// found in the library's own sources
+						manu, prod = d[probeNo/3%len(d)], d[probeNo/3/len(d)%len(d)]
+					}
 					mb, pb2 := make([]byte, 2), make([]byte, 2)
 					ref.Put(mb, uint64(manu), 2, arch)
 					ref.Put(pb2, uint64(prod), 2, arch)
